@@ -2,7 +2,7 @@ SPEC = {
     "id": "C16",
     "props_module": "NDB.Props.C16",
     "corr_modules": ["NDB.Corr.C16"],
-    "theorems": ["C16_unguarded_depth_partial", "C16_guarded_depth_bounded"],
+    "theorems": ["C16_recursion_depth_bounded", "C16_ast_depth_bounded", "C16_nesting_threshold", "C16_unguarded_depth_partial"],
     "allowed_axioms": [],
     "harness_pkg": "hx_txn",
     "harness_bin": "c16",
@@ -11,9 +11,11 @@ SPEC = {
     "trusted_base": [
         "Coq 8.16.1 kernel + vm_compute (no native_compute); coqchk re-check in the thorough tier",
         "axioms: none (Print Assumptions: Closed under the global context)",
-        "hand-written model Parser/Depth.v of the recursion structure of parse_expression_bp / prefix / primary over abstract tokens; "
-        "tied to the code by the hook nervusdb_query::parser::verif_depth (add-only, cfg nervusdb_verif): the recursion high-water mark "
-        "of the real parser on nine nesting families is compared with the model's prediction",
+        "gen/consts_txn.py: MAX_DEPTH_BUDGET (debug / release), EXPRESSION_NESTING_COST, QUERY_NESTING_COST re-read from parser.rs on every run; "
+        "it also checks that the four recursive productions run under nested() and that the push_down call sites exist",
+        "hand-written model Parser/Depth.v of parse_expression_bp / prefix / primary / postfix and of TokenParser::{nested, push_down} over abstract "
+        "tokens, building an abstract AST; tied to the code by the correspondence: for nine nesting families at depths around and beyond the limit the "
+        "real parser's accept/reject decision and (hook nervusdb_query::parser::verif_depth) its recursion high-water mark equal the model's prediction",
         "observed, not proved: stack consumption per recursion level, the size of the thread stack (children run each query on a 2 MiB "
         "thread; harness build: opt-level 1, debug assertions), allocator behaviour, wall time (soft timeout 1 s, wall cap 20 s per query), "
         "panics inside extern \"C\" functions of the C API abort the process",
@@ -21,15 +23,17 @@ SPEC = {
     ],
     "assumptions": [
         "the direct oracle is the child-process outcome enum {rows, error, panic, abort(signal), timeout}: only rows / error are allowed",
-        "planner / evaluator / Drop recursion over deep ASTs and long clause chains is exercised (chains of + AND < . UNION WITH UNWIND MATCH) "
-        "but has no model: where it overflows it is reported under the same known finding by a text-level predicate",
+        "the model covers the expression grammar; clause-level productions (CALL{}, EXISTS{}, FOREACH, shortestPath, UNION / WITH / UNWIND / pattern / "
+        "comma-pattern chains) use the same nested()/push_down() accounting in the code but are only exercised (around and beyond their limits), not modelled",
+        "that budget x (stack per level) fits the stack is measured, not proved: every family's deepest accepted input runs on a 2 MiB thread in an "
+        "unoptimised build (and in the harness build) with the limit at 47-75% of the depth at which the process dies",
         "query text must be valid UTF-8 (the API takes &str / a C string): random bytes are converted lossily",
     ],
     "manifest": {
         "category": "proof",
-        "text": "Partial. Proved over a model of the expression parser's recursion: with a nesting guard the recursion depth is <= limit+1 for ALL token streams (the candidate repair); the pinned parser has no such guard (its complexity guard bounds token advances, not depth) and the model reproduces recursion depth = nesting + 2 (2002 for the 2000-parenthesis probe), which the hook confirms on the real parser for nine productions. Observed in child processes (2 MiB thread stack, wall cap): every recursive production (parentheses, lists, maps, unary operators, function calls, CASE, indexing, comprehensions, CALL{}, EXISTS{}, FOREACH, shortestPath) and every long left-deep chain (+, AND, comparison, property access, UNION, WITH, UNWIND, MATCH) overflows the stack and kills the process at 3000 levels — K-C16-depth; a cartesian product runs past the configured soft timeout until the row limit stops it — K-C16-timeout-cartesian. No panic/abort/timeout on token soup, mutated queries, all functions with boundary arguments, random bytes/Unicode, huge literals, on empty/small/compacted graphs. Fixed: the C API aborted on a multi-byte character across byte 7 of the statement.",
+        "text": "Partial. Proved over a model of the expression parser with the depth budget of the code (constants regenerated from parser.rs): for ALL token streams and every budget the parser's recursion depth is at most budget / nesting cost, and every accepted expression has an AST no deeper than the budget — nesting and left-deep operator / postfix chains alike (planner, evaluator and Drop recurse over that AST); the accept/reject threshold of nine nesting families is computed for every depth up to 400 (50 levels of brackets with the debug budget). The model's decisions and recursion high-water marks equal the real parser's on those families (hook). Observed in child processes (2 MiB thread stack, soft timeout 1 s, wall cap 20 s): 21 productions and chains from 1 to 50k levels — accepted ones run, deeper ones are rejected with a syntax error, none kills the process; no panic/abort/timeout on token soup, mutated queries, every function with boundary arguments, random bytes/Unicode, huge literals, on empty/small/compacted graphs, through the Rust API and ndb_query. Fixed in this work: unbounded nesting/chain depth (process abort), execute_mixed draining the plan iterator after a timeout (ran > 100 s past a 1 s timeout), C API abort on a multi-byte character across byte 7. Known: a cartesian product is stopped by the row limit, not by the soft timeout.",
         "design_ref": "DESIGN.md §5 C16",
-        "level_note": "Partial: stack size, allocator failure and wall time are observed, not proved; the guard theorem is about the candidate repair, not the pinned code.",
+        "level_note": "Partial: stack cost per level, stack size, allocator failure and wall time are observed, not proved; clause-level productions share the accounting code but are outside the model.",
         "technique": "Rocq proof (mutual induction on fuel) + vm_compute witnesses + recursion-depth hook correspondence + child-process execution with outcome enum",
     },
 }
